@@ -74,6 +74,7 @@ RESP_BASE = [(ST, b"200")]
 
 class C12(Prop):
     id = "C12"
+    thorough_rounds = 2   # thorough tier: this many independently seeded rounds of the random generators (duplicates dropped)
     modules = ["H3.Props.C12"]
     engines = ["hdr"]
     design_ref = "DESIGN.md section 7, C12"
